@@ -6,7 +6,7 @@ from t4_geom_convert.Kernel.FileHandlers.Parser.ParseMCNPCell import ParseMCNPCe
 from t4_geom_convert import main as MAIN
 
 from pyvc.contract import contract
-from pyvc.sym import And, Or, Not, implies, iff, is_sym, ident
+from pyvc.sym import And, Or, Not, implies, iff, is_sym, ident, ite
 from specs.common import dot, sub, add, scale, cross, close
 
 
@@ -188,6 +188,69 @@ class _Indices:
                 lo <= x <= hi for x, (lo, hi) in zip(t, bounds))
         yield 'first-index-fastest-and-in-range', ok
         yield 'each-once', len(set(idx)) == len(idx)
+
+
+@contract(LT.LatticeBounds.size, props=['C06', 'C07'], name='Lattice.LatticeBounds.size[any-bounds]')
+class _SizeP:
+    """size() is the product of the range lengths, dims() counts the ranges with lo != hi, len() the ranges: for all
+    integer bounds lo <= hi (symbolic), 1..3 dimensions; LatticeSpec accepts a FILL array iff its length is that product."""
+    def cases(S):
+        for n in (1, 2, 3):
+            yield f'{n}-dimensions', {'bounds': [(S.int(f'lo{d}'), S.int(f'hi{d}')) for d in range(n)]}
+
+    def requires(bounds):
+        return And(*[lo <= hi for lo, hi in bounds])      # MCNP ranges lo:hi are never empty
+
+    def call(bounds):
+        lb = LT.LatticeBounds(bounds)
+        return lb.size(), lb.dims(), len(lb), lb.copy().size()
+
+    def ensures(result, bounds):
+        size, dims, n, size_of_copy = result
+        total = 1
+        for lo, hi in bounds:
+            total = total * (hi - lo + 1)
+        yield 'size', size == total
+        yield 'size-of-copy', size_of_copy == total
+        count = 0
+        for lo, hi in bounds:
+            count = count + ite(lo != hi, 1, 0)
+        yield 'dims', dims == count
+        yield 'len', n == len(bounds)
+
+
+@contract(LT.LatticeSpec.__init__, props=['C06', 'C07', 'C17'], name='Lattice.LatticeSpec.__init__[any-bounds]')
+class _SpecInitP:
+    """A FILL array is accepted iff it has exactly prod(hi - lo + 1) entries (symbolic bounds, arrays of 0..5 opaque
+    entries); the accepted object keeps the array and equal bounds."""
+    def cases(S):
+        for n in (1, 2, 3):
+            for length in (0, 1, 2, 4, 5):
+                yield f'{n}-dimensions/array-of-{length}', {
+                    'bounds': [(S.int(f'lo{d}'), S.int(f'hi{d}')) for d in range(n)],
+                    'spec': [object() for _ in range(length)]}
+
+    def requires(bounds, spec):
+        return And(*[lo <= hi for lo, hi in bounds])
+
+    def call(bounds, spec):
+        ls = LT.LatticeSpec(LT.LatticeBounds(bounds), spec)
+        return ls.spec, ls.bounds.bounds
+
+    def _total(bounds):
+        total = 1
+        for lo, hi in bounds:
+            total = total * (hi - lo + 1)
+        return total
+
+    raises = {ValueError: lambda bounds, spec: _SpecInitP._total(bounds) != len(spec)}
+
+    def ensures(result, bounds, spec):
+        kept, kept_bounds = result
+        yield 'array-kept', kept is spec
+        yield 'bounds-kept', len(kept_bounds) == len(bounds)
+        for d, (lo, hi) in enumerate(bounds):
+            yield f'bounds-kept[{d}]', And(kept_bounds[d][0] == lo, kept_bounds[d][1] == hi)
 
 
 @contract(LT.LatticeSpec.items, props=['C06', 'C07'], name='Lattice.LatticeSpec.items', status='B')
